@@ -21,6 +21,15 @@ PROFILE = P.profile(p_cutoff=0.5, entry_w={"tree": 7, "hms": 1, "minimize": 3},
 
 def gen(seed, tier):
     pl = P.gen_plan(seed, PROFILE, PROP)
+    if "levels" in pl:
+        import random as _rm
+
+        rm = _rm.Random(seed ^ 0x10CA1)
+        for l in pl["levels"]:
+            if l["engine"] == "local":
+                # "for every engine including the local optimiser": whatever bound-aware scipy method it is given
+                l["method"] = rm.choice(["L-BFGS-B", "L-BFGS-B", "l-bfgs-b", "COBYLA", "trust-constr", "Powell", "SLSQP",
+                                         "Nelder-Mead"])
     if "levels" in pl and seed % 2 == 0:
         for l in pl["levels"]:
             if l["engine"] == "custom":
